@@ -63,9 +63,12 @@ CONSTANTS
     DMQVersions,   \* supported DMQ node-to-client versions (without the 0x1000 class bit)
     ExtraIds,      \* protocol numbers no connection of these kinds ever runs
     Design,        \* "fixed" | "legacy" | "optin"
-    LocalOptSpace  \* "all": every configuration with the local opt-in on and off
-                   \* "node-to-node": off only where the option means something (node-to-node);
-                   \*     node-to-client / DMQ rows carry lka = TRUE (set, and without effect)
+    \* Every configuration is taken with the local keep-alive option on (there it
+    \* must be without effect on node-to-client / DMQ connections).  With the option off:
+    LkaOffKinds,   \* the connection kinds taken (quick tier: node-to-node, where the
+                   \* option means something; thorough: all kinds)
+    LkaOffFull     \* TRUE: with every peer-sharing setting (thorough);
+                   \* FALSE: with peer sharing off on both sides only (quick)
 
 LeiosIds == {18, 19, 20}
 KnownIds == {2, 3, 4, 5, 6, 7, 8, 9, 10, 14, 15} \cup LeiosIds
@@ -91,9 +94,9 @@ Configs ==
         /\ c.ver \in VersionsOf(c.kind)
         /\ c.kind # "ntn" => (~c.pfd /\ ~c.lps /\ ~c.pps)
         /\ (c.kind = "ntn" /\ c.ver < 11) => ~c.pps
-        /\ (LocalOptSpace # "all" /\ c.kind # "ntn") => c.lka }
+        /\ ~c.lka => (c.kind \in LkaOffKinds /\ (LkaOffFull \/ (~c.lps /\ ~c.pps))) }
 
-ASSUME LocalOptSpace \in {"all", "node-to-node"}
+ASSUME LkaOffKinds \subseteq {"ntn", "ntc", "dmq"} /\ LkaOffFull \in BOOLEAN
 ASSUME Design \in {"fixed", "legacy", "optin"}
 
 Segs == [id : Ids, resp : BOOLEAN]
@@ -303,9 +306,11 @@ EnabledIsReachable ==
 Flip(cc) == [cc EXCEPT !.lka = ~cc.lka]
 FlipImpl(cc, im) == [im EXCEPT !.kaOptIn = FALSE]
 LocalOptInOnlyAffectsOwnInitiator ==
-    /\ Enabled(Flip(c)) = Enabled(c) /\ NegRoles(Flip(c)) = NegRoles(c)
-    /\ (Required(c) \ {<<8, "init">>}) = (Required(Flip(c)) \ {<<8, "init">>})
-    /\ AppOptional(c) \subseteq (Ids \X {"init"})
+    \* (c never changes: the statements about the case alone are examined once)
+    /\ pc = "setup" =>
+         /\ Enabled(Flip(c)) = Enabled(c) /\ NegRoles(Flip(c)) = NegRoles(c)
+         /\ (Required(c) \ {<<8, "init">>}) = (Required(Flip(c)) \ {<<8, "init">>})
+         /\ AppOptional(c) \subseteq (Ids \X {"init"})
     /\ pc = "read" =>
          LET other == Setup(Flip(c), FlipImpl(c, impl))
          IN  /\ st.constructed = other.constructed
